@@ -127,6 +127,10 @@ def eq_family(E_, tag):
         a = {"a": mk("a1", (2,), jnp.int32), "b": mk("a2", (2,), jnp.int32)}
         b = {"a": mk("b1", (2,), jnp.int32), "b": mk("b2", (3,), jnp.int32)}
         return a, b, [(a["a"], b["a"]), (a["b"], b["b"])]
+    if tag == "same_size_other_shape":   # equal number of elements, equal flattened contents possible, but different shapes: never equal
+        a = {"a": mk("a1", (2, 3), jnp.int32), "b": [mk("a2", (2,), jnp.float32), mk("a3", (), jnp.int32)]}
+        b = {"a": mk("b1", (3, 2), jnp.int32), "b": [mk("b2", (1, 2), jnp.float32), mk("b3", (1,), jnp.int32)]}
+        return a, b, [(a["a"], b["a"]), (a["b"][0], b["b"][0]), (a["b"][1], b["b"][1])]
     if tag == "single":
         a, b = mk("a1", (2,), jnp.float32), mk("b1", (2,), jnp.float32)
         return a, b, [(a, b)]
@@ -154,16 +158,32 @@ def run_equal(ctx, tag):
     R.complete("paths_complete", p12)
     R.total("total_never_raises", p12, ())
     R.ob("returns_a_python_bool", all(isinstance(o[1], bool) for _, o in p12 if o[0] == "ret"))
-    R.ob("true_iff_every_leaf_pair_has_equal_shape_and_elements", S.zbool(T(p12)) == S.zbool(want))
-    R.ob("symmetric", S.zbool(T(p12)) == S.zbool(T(p21)))
+    def rp_eq(m):
+        """native replay: the model's leaves in the same structures, the real function, an exact comparison as oracle"""
+        from checks.C16 import concrete
+        c1 = jax.tree_util.tree_map(lambda x: np.asarray(concrete(m, x)), t1, is_leaf=lambda x: isinstance(x, P.SymArr))
+        c2 = jax.tree_util.tree_map(lambda x: np.asarray(concrete(m, x)), t2, is_leaf=lambda x: isinstance(x, P.SymArr))
+        got, got21 = PT.is_equal_pytree(c1, c2), PT.is_equal_pytree(c2, c1)
+        exact = all(a.shape == b.shape and np.array_equal(a, b) for a, b in zip(jax.tree_util.tree_leaves(c1), jax.tree_util.tree_leaves(c2)))
+
+        def raises(f):
+            try:
+                f(c1, c2)
+                return False
+            except AssertionError:
+                return True
+        return {"inputs": {"tree1": repr(c1)[:300], "tree2": repr(c2)[:300]}, "native is_equal_pytree": [got, got21], "exact": exact,
+                "confirmed": got != exact or got21 != exact or raises(PT.assert_trees_are_different) != exact or raises(PT.assert_trees_are_equal) == exact}
+    R.ob("true_iff_every_leaf_pair_has_equal_shape_and_elements", S.zbool(T(p12)) == S.zbool(want), replay=rp_eq)
+    R.ob("symmetric", S.zbool(T(p12)) == S.zbool(T(p21)), replay=rp_eq)
     R.ob("reflexive", T(p11))
-    if tag != "shape_mismatch":
+    if tag not in ("shape_mismatch", "same_size_other_shape"):
         R.ob("canary.always_equal", T(p12), replay=lambda m: {"confirmed": True})
     d = P.explore(lambda: PT.assert_trees_are_different(t1, t2))
-    R.ob("assert_trees_are_different.raises_AssertionError_iff_equal", S.zbool(exc_cond(d, AssertionError)) == S.zbool(want))
+    R.ob("assert_trees_are_different.raises_AssertionError_iff_equal", S.zbool(exc_cond(d, AssertionError)) == S.zbool(want), replay=rp_eq)
     R.total("assert_trees_are_different.no_other_exception", d, (AssertionError,))
     e = P.explore(lambda: PT.assert_trees_are_equal(t1, t2))
-    R.ob("assert_trees_are_equal.raises_AssertionError_iff_not_equal", S.zbool(exc_cond(e, AssertionError)) == S.zbool(S.b_not(want)))
+    R.ob("assert_trees_are_equal.raises_AssertionError_iff_not_equal", S.zbool(exc_cond(e, AssertionError)) == S.zbool(S.b_not(want)), replay=rp_eq)
     R.total("assert_trees_are_equal.no_other_exception", e, (AssertionError,))
 
 
@@ -227,7 +247,7 @@ def tasks(tier):
     for name in E.QUICK:
         cfg = E.QUICK[name][0]
         out[f"state:{name}@{cfg}"] = (run_tree, {"which": f"{name}@{cfg}", "kind": "state", "batches": (2,) if tier == "quick" else (1, 2, 3)})
-    for tag in ("dict_list", "namedtuple_tuple", "shape_mismatch", "single"):
+    for tag in ("dict_list", "namedtuple_tuple", "shape_mismatch", "same_size_other_shape", "single"):
         out[f"equal:{tag}"] = (run_equal, {"tag": tag})
     out["equal:mixed_dtypes"] = (run_equal_mixed_dtypes, {})
     return out
